@@ -22,19 +22,20 @@ Next ==
         \/ ty' \in {2, 200} /\ blen' \in {0, 5} /\ second' \in {1, 31, 50, 254}                     \* double insertions
   \/ stage = 3 /\ UNCHANGED << stage, bi, pos, ty, crit, blen, second >>
 
+SC == (ty + pos + blen) % 2       \* half of the vectors have the critical flag set on every implemented payload
 Body == Fill(IF blen % 2 = 0 THEN "seeded" ELSE "ff", blen, Seed + ty)
 
 \* the second insertion (never critical) goes to the front
 M2 == IF second = 0 THEN Base(bi) ELSE Base(bi)
 Vec ==
-  IF second = 0 THEN InsertVector(Base(bi), pos, ty, crit, Body)
+  IF second = 0 THEN InsertVector(Base(bi), pos, ty, crit, Body, SC)
   ELSE LET w  == PlainMsg(Norm(Base(bi)))
-           p1 == InsertUnk(w.payloads, pos, ty, crit, 0, Body)
+           p1 == InsertUnk(WithCrit(w, SC).payloads, pos, ty, crit, 0, Body)
            p2 == InsertUnk(p1, 1, second, 0, 127, << 9, 9, 9 >>)
            b  == EncMsgW([w EXCEPT !.payloads = p2]) IN
        Vector("insert2", << Step("decode", "C13", FALSE, [wire |-> b, caps |-> FALSE],
                                  IF crit = 1 THEN [panic |-> FALSE, capdiff |-> FALSE, err |-> TRUE]
                                              ELSE [panic |-> FALSE, capdiff |-> FALSE, err |-> FALSE, msg |-> Norm(Base(bi))]) >>)
 Emit == stage = 3 => PrintT(ToJson(Vec))
-Sound == stage = 3 /\ second = 0 => InsertSound(Base(bi), pos, ty, crit, Body)
+Sound == stage = 3 /\ second = 0 => InsertSound(Base(bi), pos, ty, crit, Body, SC)
 =============================================================================
